@@ -115,53 +115,155 @@ func firstNonPhi(b *ssa.BasicBlock) int {
 
 // ---------------------------------------------------------------- run loop
 
-type stopCond struct {
-	depth int
-	block *ssa.BasicBlock // nil: stop when the frame at depth has returned
-}
-
-func (s stopCond) reached(st *State) bool {
-	if len(st.frames) < s.depth {
-		return true
+// rpo returns the reverse-postorder index of each block of fn.
+func (e *Engine) rpo(fn *ssa.Function) map[*ssa.BasicBlock]int {
+	if m, ok := e.rpoCache[fn]; ok {
+		return m
 	}
-	if s.block != nil && len(st.frames) == s.depth {
-		f := st.top()
-		return f.block == s.block && f.ip == firstNonPhi(f.block)
+	seen := map[*ssa.BasicBlock]bool{}
+	var post []*ssa.BasicBlock
+	var dfs func(b *ssa.BasicBlock)
+	dfs = func(b *ssa.BasicBlock) {
+		seen[b] = true
+		for _, s := range b.Succs {
+			if !seen[s] {
+				dfs(s)
+			}
+		}
+		post = append(post, b)
 	}
-	return false
-}
-
-// runUntil runs st (and everything it forks into) until each state is done or
-// has reached stop; the latter are returned.
-func (e *Engine) runUntil(st *State, stop stopCond) []*State {
-	var stopped []*State
-	work := []*State{st}
-	for len(work) > 0 {
-		s := work[len(work)-1]
-		work = work[:len(work)-1]
-		for {
-			if s.done {
-				break
-			}
-			if stop.reached(s) {
-				stopped = append(stopped, s)
-				break
-			}
-			succ, multi := e.step(s)
-			if !multi {
-				continue
-			}
-			work = append(work, succ...)
-			break
+	if len(fn.Blocks) > 0 {
+		dfs(fn.Blocks[0])
+	}
+	m := map[*ssa.BasicBlock]int{}
+	for i, b := range post {
+		m[b] = len(post) - 1 - i
+	}
+	for _, b := range fn.Blocks {
+		if _, ok := m[b]; !ok {
+			m[b] = len(post) + b.Index
 		}
 	}
-	return stopped
+	e.rpoCache[fn] = m
+	return m
 }
 
-// Run executes fn(args) to completion from base state st and returns the number of paths.
+// exploreFrame explores the top frame of init (and everything it calls) until
+// every state has returned from it, died or finished.  States are advanced one
+// basic block at a time in reverse-postorder, and states that meet at the same
+// program point are merged (ite on values), so reconverging control flow does
+// not multiply paths.  The returned states are positioned in the caller.
+func (e *Engine) exploreFrame(init *State) []*State {
+	depth := len(init.frames)
+	fn := init.top().fn
+	rpo := e.rpo(fn)
+	key := func(s *State) (int, int) {
+		f := s.frames[depth-1]
+		return rpo[f.block], f.ip
+	}
+	pending := []*State{init}
+	var returned []*State
+	for len(pending) > 0 {
+		bi := 0
+		bk, bip := key(pending[0])
+		for i := 1; i < len(pending); i++ {
+			k, ip := key(pending[i])
+			if k < bk || (k == bk && ip < bip) {
+				bi, bk, bip = i, k, ip
+			}
+		}
+		s := pending[bi]
+		pending = append(pending[:bi], pending[bi+1:]...)
+		if !e.NoMerge && len(pending) > 0 {
+			// merge every pending state at the same program point into s
+			var rest []*State
+			for _, o := range pending {
+				k, ip := key(o)
+				if k == bk && ip == bip && len(o.frames) == depth {
+					if m, ok := e.merge2(s, o); ok {
+						s = m
+						e.Stats.Merges++
+						continue
+					}
+					e.Stats.MergeFails++
+				}
+				rest = append(rest, o)
+			}
+			pending = rest
+		}
+	inner:
+		for !s.done {
+			if len(s.frames) < depth {
+				returned = append(returned, s)
+				break
+			}
+			if len(s.frames) > depth {
+				rs := e.exploreFrame(s)
+				switch len(rs) {
+				case 0:
+					break inner
+				case 1:
+					s = rs[0]
+					continue
+				default:
+					pending = append(pending, rs...)
+					break inner
+				}
+			}
+			e.Stats.Steps++
+			if e.Stats.Steps > e.MaxSteps {
+				e.addEvent(Event{Kind: "budget", Label: "step budget exhausted"})
+				return nil
+			}
+			f := s.top()
+			instr := f.block.Instrs[f.ip]
+			if e.Trace {
+				fmt.Printf("[s%d d%d] %s: %s\n", s.id, len(s.frames), f.fn.Name(), instr)
+			}
+			switch in := instr.(type) {
+			case *ssa.Jump:
+				e.jump(s, in.Block().Succs[0])
+				if len(pending) > 0 {
+					pending = append(pending, s)
+					break inner
+				}
+			case *ssa.If:
+				succ := e.execIf(s, in)
+				if len(succ) == 1 && len(pending) == 0 {
+					s = succ[0]
+					continue
+				}
+				pending = append(pending, succ...)
+				break inner
+			default:
+				succ, multi := e.exec(s, instr)
+				if multi {
+					pending = append(pending, succ...)
+					break inner
+				}
+			}
+		}
+	}
+	if len(returned) <= 1 || e.NoMerge {
+		return returned
+	}
+	out := e.mergeStates(returned)
+	if len(out) > 1 {
+		var live []*State
+		for _, m := range out {
+			if e.feasible(m, e.TT.True) {
+				live = append(live, m)
+			}
+		}
+		out = live
+	}
+	return out
+}
+
+// Run executes fn(args) to completion from base state st.
 func (e *Engine) Run(st *State, fn *ssa.Function, args []Value) {
 	e.pushFrame(st, fn, args, nil, nil, false)
-	e.runUntil(st, stopCond{depth: 0})
+	e.exploreFrame(st)
 }
 
 func (e *Engine) pushFrame(st *State, fn *ssa.Function, args []Value, bind []Value, call ssa.CallInstruction, discard bool) {
@@ -181,25 +283,6 @@ func (e *Engine) pushFrame(st *State, fn *ssa.Function, args []Value, bind []Val
 		f.regs[p] = args[i]
 	}
 	st.frames = append(st.frames, f)
-}
-
-// step executes one instruction.  multi=false: st simply continues.
-func (e *Engine) step(st *State) (succ []*State, multi bool) {
-	e.Stats.Steps++
-	if e.Stats.Steps > e.MaxSteps {
-		e.addEvent(Event{Kind: "budget", Label: "step budget exhausted"})
-		st.done = true
-		return nil, false
-	}
-	f := st.top()
-	if f.ip >= len(f.block.Instrs) {
-		e.fail("ip past end of block in %s", f.fn)
-	}
-	instr := f.block.Instrs[f.ip]
-	if e.Trace {
-		fmt.Printf("[s%d d%d] %s: %s\n", st.id, len(st.frames), f.fn.Name(), instr)
-	}
-	return e.exec(st, instr)
 }
 
 func (e *Engine) advance(st *State) { st.wframe().ip++ }
@@ -262,7 +345,8 @@ func (e *Engine) exec(st *State, instr ssa.Instruction) ([]*State, bool) {
 	case *ssa.Jump:
 		e.jump(st, in.Block().Succs[0])
 	case *ssa.If:
-		return e.execIf(st, in)
+		succ := e.execIf(st, in)
+		return succ, true
 	case *ssa.Return:
 		e.doReturn(st, in)
 	case *ssa.Call:
@@ -369,7 +453,8 @@ func (e *Engine) exec(st *State, instr ssa.Instruction) ([]*State, bool) {
 
 // ---------------------------------------------------------------- If + scopes
 
-func (e *Engine) execIf(st *State, in *ssa.If) ([]*State, bool) {
+// execIf returns the successor states of a conditional branch (1 or 2; 0 if infeasible).
+func (e *Engine) execIf(st *State, in *ssa.If) []*State {
 	tt := e.TT
 	c := e.get(st, in.Cond).(*Term)
 	blk := in.Block()
@@ -379,44 +464,45 @@ func (e *Engine) execIf(st *State, in *ssa.If) ([]*State, bool) {
 		} else {
 			e.jump(st, blk.Succs[1])
 		}
-		return nil, false
+		return []*State{st}
 	}
-	ft := e.feasible(st, c)
-	ff := e.feasible(st, tt.Not(c))
+	ft, ff := true, true
+	if e.EagerFeas || st.top().visits[blk] > 1 {
+		ft = e.feasible(st, c)
+		ff = e.feasible(st, tt.Not(c))
+	} else {
+		// lazy: decide syntactically from the path condition only; an infeasible
+		// side is explored too and disappears in the merge (its condition is false)
+		nc := tt.Not(c)
+		for _, p := range st.pc {
+			if p == c {
+				ff = false
+			} else if p == nc {
+				ft = false
+			}
+		}
+	}
 	switch {
 	case ft && !ff:
 		e.jump(st, blk.Succs[0])
-		return nil, false
+		return []*State{st}
 	case !ft && ff:
 		e.jump(st, blk.Succs[1])
-		return nil, false
+		return []*State{st}
 	case !ft && !ff:
 		st.done = true
-		return nil, false
+		return nil
 	}
 	e.Stats.Forks++
-	base := len(st.pc)
-	depth := len(st.frames)
+	if e.ForkSites != nil {
+		e.ForkSites[e.posOf(st, in.Cond.Pos())+" "+st.top().fn.Name()]++
+	}
 	other := e.Clone(st)
 	st.addPC(c)
 	e.jump(st, blk.Succs[0])
 	other.addPC(tt.Not(c))
 	e.jump(other, blk.Succs[1])
-	if e.NoMerge {
-		return []*State{st, other}, true
-	}
-	join := e.ipdom(st.top().fn)[blk]
-	stop := stopCond{depth: depth, block: join}
-	if depth == 1 && join == nil {
-		// root frame, join at function exit: nothing to merge afterwards
-		return []*State{st, other}, true
-	}
-	rs := e.runUntil(st, stop)
-	rs = append(rs, e.runUntil(other, stop)...)
-	if len(rs) <= 1 {
-		return rs, true
-	}
-	return e.mergeStates(rs, base), true
+	return []*State{st, other}
 }
 
 // ---------------------------------------------------------------- calls
@@ -1652,3 +1738,6 @@ func shortFn(fn *ssa.Function) string {
 	s = strings.ReplaceAll(s, "github.com/AdguardTeam/urlfilter.", "urlfilter.")
 	return s
 }
+
+// Ipdom exposes the post-dominator map (debugging).
+func (e *Engine) Ipdom(fn *ssa.Function) map[*ssa.BasicBlock]*ssa.BasicBlock { return e.ipdom(fn) }
